@@ -17,17 +17,23 @@ MANIFEST = dict(
     technique="Lean 4 proof (index model refines FIFO spec, invariant by induction over operations) + "
               "differential correspondence of cbuf.c against the compiled model",
     text="Theorems in lean/PdshVerif/Props/C13.lean about the index-level model of cbuf.c (all op sequences, "
-         "all sizes, all three modes; the property's operation list and, beyond it, replay/rewind, the *_to_fd "
-         "calls on a descriptor that takes only some bytes, and copy/move between two buffers); the protocol "
-         "driver executes exactly the step functions the theorems are about; the model is executed against the "
-         "real cbuf.c (assertions+ASan and shipped flavour) on generated op histories, and the real code is "
-         "also compared op by op with the FIFO specification (with its history of replayable bytes), which "
-         "yields the failing history as replay.",
+         "all sizes, all three modes, EVERY admissible growth policy of cbuf_grow; the property's operation list "
+         "and, beyond it, every function cbuf.h declares: replay/rewind and their line-level forms, the *_to_fd "
+         "calls on a descriptor that takes only some bytes, copy/move between two buffers, all getters; any "
+         "concurrent history under the buffer's mutex equals the sequential history of its calls); the protocol "
+         "driver executes exactly the step functions the theorems are about, following at every step the "
+         "capacity the code under test reported (the growth policy is learnt behaviourally); the model is "
+         "executed against the real cbuf.c (assertions+ASan and shipped flavour) on a deterministic core of op "
+         "histories plus random ones, and the real code is also compared op by op with the FIFO specification "
+         "(with its history of replayable bytes), which yields the failing history as replay; every public call "
+         "is checked for the locking discipline.",
     design_ref="DESIGN.md section 5 C13",
     note="Lean 4.33 kernel; axioms propext/Classical.choice/Quot.sound at most (audited per theorem every run); "
          "hand-written model tied to cbuf.c by differential execution of the real source built from /repo's "
-         "working tree plus constants regenerated from /repo; read(2)/pipe, memcpy/memmove/realloc modelled not "
-         "verified; per-cbuf mutex not modelled; harness, generators, gcc, ASan/UBSan trusted")
+         "working tree plus constants and the list of prototypes of cbuf.h regenerated from /repo; "
+         "read(2)/pipe, memcpy/memmove/realloc modelled not verified; the mutex is modelled as the discipline "
+         "lock / critical section / unlock, which the harness checks on every call (pthread semantics trusted); "
+         "harness, generators, gcc, ASan/UBSan trusted")
 CHUNK = 1000
 
 
@@ -238,7 +244,17 @@ def run(ctx):
     ok1 = ctx.cc(exe_dbg, [os.path.join(HARNESS, "cbuf_harness.c")], san=True, assertions=True)
     ok2 = ctx.cc(exe_rel, [os.path.join(HARNESS, "cbuf_harness.c")], san=True, assertions=False)
     cov = {"evaluations": 0, "distinct_nontrivial": 0, "samples": [],
-           "rule": "op sequences over create/opt/write/write_from_fd/write_line/read/read_to_fd/peek/drop/"
+           "rule": "FIRST a deterministic core, identical at every seed (blocks `core:*` of the distribution): all "
+                   "sequences of length <= 4 over a 9-op alphabet on a min=2,max=5 buffer per mode; every public "
+                   "operation with boundary arguments (lines -1/0/1/many, lengths around every line length, "
+                   "descriptor capacities 0.., short reads 0..request, EOF/EAGAIN, EINTR before every read/write) x "
+                   "every wrap position x fill level and newline layout x every overwrite mode of a 3/3 and a "
+                   "2..5 buffer; copy/move at every wrap position into growing/wrapping destinations; sizes around "
+                   "every growth step up to the maximum per mode and writing call; growth capped by the maximum "
+                   "with space already free; short reads on a buffer that cannot grow; cbuf_grow from every index "
+                   "relation (all prefixes write a, read b, write c, read d); the dsh.c buffer 64..131072 filled "
+                   "through all growth steps; the pinned corpus/C13 cases.  THEN random "
+                   "op sequences over create/opt/write/write_from_fd/write_line/read/read_to_fd/peek/drop/"
                    "read_line/peek_line/drop_line/flush/replay/rewind/peek_to_fd/read_to_fd/replay_to_fd (descriptor "
                    "sinks that take 0, 1, .., used-1, used, used+1 or all bytes and then fail with EAGAIN) and, on a "
                    "pair of buffers with independent bounds and modes (35% of the sequences), copy/move, "
@@ -303,12 +319,59 @@ def run(ctx):
         LEVEL, cov,
         assumptions=["read(2)/pipe semantics as modelled by Src.fd (available bytes, then EAGAIN or EOF)",
                      "memcpy/memmove/realloc behave per ISO C; realloc never fails",
-                     "single-threaded use per buffer (the per-cbuf mutex is not modelled)"],
+                     "pthread mutexes are mutually exclusive; every public function of cbuf.c is one critical "
+                     "section of the buffer's mutex (checked on every call the harness makes, not proved of the C text)",
+                     "growth policy of cbuf_grow: any choice that covers the request or reaches the maximum "
+                     "(Admissible); the choices of the code under test are observed, not assumed"],
         trusted_base=["Lean 4.33 kernel", "axioms: propext, Classical.choice, Quot.sound at most (audited per theorem)",
                       "hand-written index model Cbuf/Model.lean tied to cbuf.c by differential execution",
-                      "Gen/Consts.lean regenerated from /repo (CBUF_CHUNK, mode codes)",
+                      "Gen/Cbuf.lean regenerated from /repo (CBUF_CHUNK, mode codes, every prototype of cbuf.h)",
                       "harness/cbuf_harness.c, vlib/, gcc, ASan/UBSan"],
         checker_cmd="lake build PdshVerif.Props.C13 && #print axioms on every theorem of Props/C13.lean")
+
+
+def run_batch_capped(cmd, seqs, env, max_crashes=3, timeout=600):
+    """like vlib.seqrun.run_batch (one process, restarted behind a sequence that crashed it), but
+    gives up after `max_crashes` crashes: returns the results of the sequences actually run.  A tree
+    that aborts on thousands of sequences would otherwise cost one process restart per abort."""
+    import subprocess
+    results = []
+    start = 0
+    crashes = 0
+    tried_timeout = False
+    while start < len(seqs) and crashes < max_crashes:
+        chunk = seqs[start:]
+        text = "".join(l + "\n" for s in chunk for l in s)
+        try:
+            p = subprocess.run(cmd, input=text.encode(), stdout=subprocess.PIPE, stderr=subprocess.PIPE,
+                               timeout=timeout, env=env)
+            rc, out, err = p.returncode, p.stdout, p.stderr
+        except subprocess.TimeoutExpired as e:
+            if not tried_timeout:
+                tried_timeout = True        # a timeout alone is re-tried once before it is reported
+                continue
+            rc, out, err = -999, e.stdout or b"", b"TIMEOUT"
+        lines = out.decode("utf-8", "replace").split("\n")
+        if lines and lines[-1] == "":
+            lines.pop()
+        pos = 0
+        stopped = False
+        for k, s in enumerate(chunk):
+            if pos + len(s) <= len(lines):
+                results.append((lines[pos:pos + len(s)], None))
+                pos += len(s)
+            else:
+                results.append((lines[pos:], "rc=%s %s" % (rc, err.decode("utf-8", "replace")[-1500:])))
+                crashes += 1
+                start = start + k + 1
+                stopped = True
+                break
+        if not stopped:
+            if rc != 0 and results:
+                a, _ = results[-1]
+                results[-1] = (a, "rc=%s %s" % (rc, err.decode("utf-8", "replace")[-1500:]))
+            break
+    return results
 
 
 def process_block(ctx, cov, dist, distinct, exe, name, bname, seqs):
@@ -318,7 +381,10 @@ def process_block(ctx, cov, dist, distinct, exe, name, bname, seqs):
     # every sequence starts from nothing (both buffers gone, first buffer selected): the three
     # runs stay in step even when the implementation's process had to be restarted after a crash
     seqs = [s if s and s[0] == "reset" else ["reset"] + s for s in seqs]
-    impl = run_batch([exe], seqs, env=dict(os.environ, ASAN_OPTIONS="detect_leaks=0"))
+    impl = run_batch_capped([exe], seqs, env=dict(os.environ, ASAN_OPTIONS="detect_leaks=0"))
+    if len(impl) < len(seqs):
+        dist["blocks"][bname + "/" + name + " (cut after 3 crashes)"] = len(impl)
+        seqs = seqs[:len(impl)]
     # model and spec both get the op lines annotated with the implementation's own answer
     # (`@ RET SIZE`): the spec takes them as the choices the property leaves open, the model
     # FOLLOWS the observed capacity (growth policy = parameter of the model, learnt
@@ -329,6 +395,8 @@ def process_block(ctx, cov, dist, distinct, exe, name, bname, seqs):
     dist["blocks"][bname + "/" + name] = len(seqs)
     pos = 0
     for s, (ans, crash) in zip(seqs, impl):
+        if found >= 25:
+            break       # the replays exist; do not record thousands of further failing sequences
         m = mlines[pos:pos + len(s)]
         sp = slines[pos:pos + len(s)]
         pos += len(s)
